@@ -819,6 +819,43 @@ static int enc_into(int k, int n, carquet_buffer_t* b, carquet_buffer_t* b2) {
     default: return carquet_dictionary_encode_byte_array(ba, n, b, b2);
     }
 }
+/* DELTA_BINARY_PACKED blocks whose miniblocks are of different kinds: each of up to 6 miniblocks (32 deltas each) is constant-step (width 0 when its step is the block minimum),
+ * small jitter, or wide; every combination, for 32 and 64 bits, plus a partial last miniblock */
+static void stage_delta_miniblocks(void) {
+    mc_stage("delta.miniblock-kinds.every-combination");
+    static int64_t v[260];
+    for (int bits = 32; bits <= 64; bits += 32) for (int nmb = 1; nmb <= 6; nmb++) { int total = 1; for (int i = 0; i < nmb; i++) total *= 3;
+        for (int code = 0; code < total; code++) for (int tail = 0; tail < 2; tail++) {
+            if (!mc_next()) continue;
+            int n = 1; v[0] = 1000; int x = code;
+            for (int m = 0; m < nmb; m++) { int kind = x % 3; x /= 3; int cnt = (m == nmb - 1 && tail) ? 7 : 32;
+                for (int i = 0; i < cnt; i++, n++) { int64_t d = kind == 0 ? 5 : kind == 1 ? 5 + ((i * 7 + m) % 4) : (bits == 64 ? 5 + (int64_t)((i * 2654435761u) % 100000) * 40000 : 5 + (int64_t)((i * 40503u + (unsigned)m) % 30000)); v[n] = v[n - 1] + d; } }
+            mc_desc("delta:bits=%d;miniblocks=%d;kinds=%d (base 3: 0 constant step, 1 jitter, 2 wide);partial-last=%d", bits, nmb, code, tail); mc_case_key(mc_mix(0x4a, ((uint64_t)bits << 32) | ((uint64_t)nmb << 24) | ((uint64_t)code << 1) | (uint64_t)tail)); mc_nontrivial();
+            check_delta(v, n, bits);
+        } }
+}
+/* the RLE encoder driven through put_repeat (also as the very first call, also with value 0) and put, every sequence of up to 3 runs */
+static void stage_put_repeat(void) {
+    mc_stage("rle.encoder.put-and-put-repeat-sequences");
+    static const uint32_t VAL[] = { 0, 1, 3 }; static const int CNT[] = { 1, 3, 8, 9, 20 };
+    for (int nr = 1; nr <= 3; nr++) { int per = 3 * 5 * 2, total = 1; for (int i = 0; i < nr; i++) total *= per;
+        for (int code = 0; code < total; code++) {
+            if (!mc_next()) continue;
+            uint32_t want[64]; int n = 0; carquet_buffer_t b; carquet_buffer_init(&b); carquet_rle_encoder_t e; carquet_rle_encoder_init(&e, &b, 2); carquet_status_t st = CARQUET_OK; int x = code; char d[96]; int dk = 0;
+            for (int r = 0; r < nr && st == CARQUET_OK; r++) { int sel = x % per; x /= per; uint32_t val = VAL[sel % 3]; int cnt = CNT[(sel / 3) % 5]; int how = sel / 15;
+                dk += snprintf(d + dk, sizeof d - (size_t)dk, "%s%s(%u x%d)", r ? "," : "", how ? "put_repeat" : "put", val, cnt);
+                if (how) st = carquet_rle_encoder_put_repeat(&e, val, cnt); else for (int i = 0; i < cnt && st == CARQUET_OK; i++) st = carquet_rle_encoder_put(&e, val);
+                for (int i = 0; i < cnt; i++) want[n++] = val; }
+            if (st == CARQUET_OK) st = carquet_rle_encoder_flush(&e);
+            mc_desc("rle-encoder:%s", d); mc_case_key(mc_mix(0x4b, ((uint64_t)nr << 32) | (uint32_t)code)); if (n >= 2) mc_nontrivial();
+            if (st != CARQUET_OK) mc_count("rle.encoder_rejected", 1);
+            else { uint8_t* enc = mc_exact(b.data, b.size); uint32_t got[64]; memset(got, 0xEE, sizeof got); size_t used = 0;
+                int64_t g = C12 ? ref_hybrid_decode(enc, b.size, 2, got, n, &used) : carquet_rle_decode_all(enc, b.size, 2, got, n);
+                if (g != n || memcmp(got, want, sizeof(uint32_t) * (size_t)n)) FAILF(C12 ? "rle-encoder.carquet-encoded.values" : "rle-encoder.self.values", "%s: %d values were put, the stream %s decodes to %lld: %s", d, n, mc_hex(enc, b.size, 16), (long long)g, seq_u32(got, g > 0 && g < 64 ? (int)g : 0));
+                free(enc); }
+            carquet_buffer_destroy(&b);
+        } }
+}
 static void stage_append(void) {
     static const char* KN[] = { "plain-boolean", "plain-int32", "plain-int64", "plain-int96", "plain-float", "plain-double", "plain-byte-array", "plain-flba", "rle-encode-all", "rle-encode-levels", "rle-encoder", "delta-length", "delta-strings", "dict-int32", "dict-int64", "dict-float", "dict-double", "dict-byte-array" };
     static const int NN[] = { 0, 1, 2, 7, 8, 9, 17, 64, 100 }; static const int PP[] = { 1, 6, 4093 };
@@ -900,6 +937,8 @@ static void enumerate(void) {
     stage_dict();
     stage_scale();
     stage_append();
+    stage_delta_miniblocks();
+    stage_put_repeat();
 }
 
 int main(int argc, char** argv) { return mc_main(argc, argv, "enc", enumerate); }
